@@ -270,7 +270,10 @@ def _run(task, I, res, seed, tier):
             detail = _replay(task, wit) if wit is not None else ""
             obls.append(obligation(f"{task.name}: no exception outside the library family ({type(o.exc).__name__})",
                                    "refuted" if st == "sat" else "undecided", backend, secs, wit, detail, kind="escape"))
-    if have_band:
+    if getattr(task, "custom_obligations", None) is not None:
+        for nm, hyps, goal in task.custom_obligations(I, inp, code_paths, cobs):
+            solve_clause(f"{task.name}: {nm}", hyps, goal)
+    elif have_band:
         lo_paths = _merge_spec(I, list(I.explore(lambda: task.lower(I, inp))), task.observe_spec)
         up_paths = _merge_spec(I, list(I.explore(lambda: task.upper(I, inp))), task.observe_spec)
         res["spec_paths"] = len(lo_paths) + len(up_paths)
@@ -319,6 +322,26 @@ def _run(task, I, res, seed, tier):
                                    witness=s, detail=f"replayed natively: code -> {c!r}, spec -> {sp!r}", kind="bounded"))
             break
     res["crosscheck"] = k
+
+
+def spec_formula(I, fn, args):
+    """z3 formula `fn(*args) is True`, from the symbolic exploration of a boolean spec function"""
+    parts = []
+    cover = []
+    saved = (I.decisions, I.pos, I.pc, I.heap, I.writes, I.local_ids, I.path_obligations, I.keep, I.defs)
+    try:
+        for p in I.explore(lambda: I.call(fn, list(args), {})):
+            if p["kind"] != "return":
+                raise Unsupported(f"spec function {fn.__name__} raised {p['value']!r}")
+            v = p["value"]
+            v = concretize(v) if is_sym(v) else v
+            cover.append(z3.And(*p["pc"]) if p["pc"] else z3.BoolVal(True))
+            if v is False:
+                continue
+            parts.append(z3.And(*p["pc"], lift_bool(v)))
+    finally:
+        (I.decisions, I.pos, I.pc, I.heap, I.writes, I.local_ids, I.path_obligations, I.keep, I.defs) = saved
+    return (z3.Or(*parts) if parts else z3.BoolVal(False)), z3.Or(*cover)
 
 
 def _kind(o):
